@@ -115,7 +115,7 @@ def locator_item(entries, locator_type=VHDX_LOCATOR_TYPE, order=None):
 
 def build(states, slots, block_size=MB, sector=512, size=None, layer=1, seqs=(7, 6), regions=("meta", "bat"),
           meta_mb=2, bat_mb=3, base_mb=None, bitmaps=None, parent=None, disk_id=b"\x11" * 16, nslots=None, label="vhdx",
-          total_blocks=None, window_at=0, sb_slot_mb=None, name=None, leave_allocated=False):
+          total_blocks=None, window_at=0, sb_slot_mb=None, name=None, leave_allocated=False, stale_offsets=False):
     """states: per block of the *window* one of NOT_PRESENT/UNDEFINED/ZERO_ST/UNMAPPED/DATA('D')/PARTIAL.
     slots:   per block the physical slot (for DATA / PARTIAL blocks).
     window_at/total_blocks: the window sits at block `window_at` of a disk of `total_blocks` blocks (others NOT_PRESENT).
@@ -172,7 +172,16 @@ def build(states, slots, block_size=MB, sector=512, size=None, layer=1, seqs=(7,
             bat[bat_index(blk, ratio)] = (FULL if st == DATA else PARTIAL) | (mb << 20)
             used[p] = blk
         else:
-            bat[bat_index(blk, ratio)] = st
+            e = st
+            if stale_offsets:
+                # FileOffsetMB of a block without data is reserved / left over from an earlier allocation (trimmed blocks keep
+                # it): here it names the area directly behind the previous block's data, or the first slot
+                prev = i - 1
+                if prev >= 0 and states[prev] in (DATA, PARTIAL) and slots[prev] is not None:
+                    e |= (base_mb + (slots[prev] + 1) * stride_mb) << 20
+                else:
+                    e |= base_mb << 20
+            bat[bat_index(blk, ratio)] = e
     if nslots is None:
         nslots = max(used, default=-1) + 1
     end_mb = base_mb + (nslots + 1) * stride_mb
